@@ -60,10 +60,26 @@ def emptyBody : String := "lit:%"
 def bodyAllowed (method : String) (status : Nat) : Bool :=
   method != "HEAD" && status != 204 && status != 304
 
-/-- net/http's *server* never sends Content-Type with a 304 (`suppressedHeaders`): neither the fake
-upstream nor the server in front of the proxy does, whatever the handler put into the header map. -/
+/-- net/http's *server* deletes Content-Length from every 204/304 and Content-Type from every 304 it
+writes (`suppressedHeaders`), whatever the handler put into the header map: the server in front of
+the proxy never lets them through to the client. -/
 def wireHeaders (status : Nat) (h : Headers) : Headers :=
-  if status == 304 then AList.del h "Content-Type" else h
+  if status == 304 then AList.del (AList.del h "Content-Type") "Content-Length"
+  else if status == 204 then AList.del h "Content-Length" else h
+
+def upstreamDate : String := "Tue, 15 Nov 1994 08:12:31 GMT"
+
+/-- byte length of the body a token stands for -/
+def bodyLen (tok : String) : Nat :=
+  if tok.startsWith "lit:" then (dec (String.ofList (tok.toList.drop 4))).length
+  else match tok.splitOn ":" with
+    | ["gen", _, n] => n.toNat?.getD 0
+    | _ => 0
+
+/-- what the fake upstream sends besides the scripted headers: a fixed Date, and Content-Length when
+the reply is framed by length (rfr=cl) -/
+def framing (cl : Bool) (len : Nat) : Headers :=
+  ("Date", [upstreamDate]) :: (if cl then [("Content-Length", [toString len])] else [])
 
 def followsRedirects : Bool := Refinery.Gen.Proxy.proxyFollowsRedirects != 0
 def mountDefaults : Headers := Refinery.Gen.Proxy.mountDefaults
@@ -73,12 +89,13 @@ structure ParsedOp where
   status : Nat
   rh : Headers
   rb : String
+  cl : Bool        -- upstream reply carries Content-Length (rfr=cl)
 
 def parseOp (op : List String) (exts : List (List String)) : Option ParsedOp :=
   match op with
   | "req" :: a =>
-    match kv a "m", kv a "t", kv a "h", kv a "b", kv a "s", kv a "rh", kv a "rb" with
-    | some m, some t, some h, some b, some s, some rh, some rb =>
+    match kv a "m", kv a "t", kv a "h", kv a "b", kv a "s", kv a "rh", kv a "rb", kv a "rfr" with
+    | some m, some t, some h, some b, some s, some rh, some rb, some rfr =>
       let target := dec t
       let (path, q) := splitTarget target
       let dpath := exts.findSome? fun e =>
@@ -90,18 +107,18 @@ def parseOp (op : List String) (exts : List (List String)) : Option ParsedOp :=
         some { req := { method := m, path := path, dpath := dp, rawQuery := q.getD "",
                         forceQuery := q == some "", headers := parseHList h, body := b,
                         remoteAddr := "@R" },
-               status := st, rh := parseHList rh, rb := rb }
+               status := st, rh := parseHList rh, rb := rb, cl := rfr == "cl" }
       | _, _ => none
-    | _, _, _, _, _, _, _ => none
+    | _, _, _, _, _, _, _, _ => none
   | _ => none
 
 /-- the scripted upstream of the harness -/
 def upstreamOf (p : ParsedOp) (q : UpReq) : Resp :=
   if q.url == followPath then
-    { status := 200, headers := [("Content-Type", ["text/plain"]), ("X-Followed", ["1"])],
+    { status := 200, headers := [("Content-Type", ["text/plain"]), ("X-Followed", ["1"])] ++ framing p.cl 8,
       body := if q.method == "HEAD" then emptyBody else "lit:followed" }
   else
-    { status := p.status, headers := wireHeaders p.status p.rh,
+    { status := p.status, headers := p.rh ++ framing p.cl (bodyLen p.rb),
       body := if bodyAllowed q.method p.status then p.rb else emptyBody }
 
 /-- net/http's rewrite of a request for the next hop (method per `redirectBehavior`; the
@@ -181,20 +198,20 @@ def proxyMon (m : String) (op : List String) (exts : List (List String)) (obs : 
             (if cs != p.status then [fail "status-changed" s!"upstream {p.status}, client {cs}"] else []) ++
             (let want := if bodyAllowed r.method p.status then p.rb else emptyBody
              if cb != want then [fail "response-body-changed" s!"upstream {want}, client {cb}"] else []) ++
-            ((wireHeaders p.status p.rh).flatMap fun (name, vals) =>
+            ((wireHeaders p.status (p.rh ++ framing p.cl (bodyLen p.rb))).flatMap fun (name, vals) =>
               match AList.get ch name with
-              | none => [fail "response-header-dropped" s!"{name} did not reach the client"]
+              | none => [fail s!"response-header-lost:{name}" s!"upstream sent {name}: {enc (joinVals vals)}; it did not reach the client"]
               | some cv =>
                 if name == "Set-Cookie" && vals.length ≥ 2 then
                   if cv == vals then []
                   else if cv == [joinVals vals] then
                     [fail "set-cookie-lines-joined" s!"{vals.length} Set-Cookie lines reached the client as one comma-joined line"]
-                  else [fail "response-header-changed" s!"Set-Cookie: {enc (joinVals vals)} reached the client as {enc (joinVals cv)}"]
+                  else [fail "response-header-altered:Set-Cookie" s!"Set-Cookie: {enc (joinVals vals)} reached the client as {enc (joinVals cv)}"]
                 else if joinVals cv != joinVals vals then
-                  [fail "response-header-changed" s!"{name}: {enc (joinVals vals)} reached the client as {enc (joinVals cv)}"]
+                  [fail s!"response-header-altered:{name}" s!"{name}: {enc (joinVals vals)} reached the client as {enc (joinVals cv)}"]
                 else []) ++
             (ch.flatMap fun (name, vals) =>
-              if (AList.get p.rh name).isSome || AList.get mountDefaults name == some vals then [] else
+              if (AList.get (p.rh ++ framing p.cl (bodyLen p.rb)) name).isSome || AList.get mountDefaults name == some vals then [] else
                 [fail "response-header-added" s!"{name}: {enc (joinVals vals)} was not sent by the upstream"])
         (m, reqFails ++ respFails)
     | _, _ => (m, [])
